@@ -108,6 +108,7 @@ def gen_panel(r, g, n_geos, n_dates, cls='continuous', id_style='str', origin=No
   if cls == 'duplicates' and G >= 3:
     a, b = r.sample(range(G), 2)
     vals[b] = vals[a]
+    feats.append('twins:%d,%d' % (a, b))
   elif cls == 'integer':
     vals = np.round(vals / sizes[:, None] * 2.0)      # small integers, many ties
     vals += (np.arange(G)[:, None] % 3)
